@@ -1,6 +1,7 @@
 package main
 
 import (
+	"os"
 	"fmt"
 	"go/constant"
 	"go/token"
@@ -71,6 +72,7 @@ type FuncVerifier struct {
 	mergeMode bool
 	fork     *forkOut
 	ccMode   int
+	sumParamFn map[*ssa.Parameter]*ssa.Function
 	sumKeep  bool
 }
 
@@ -166,7 +168,11 @@ func (fv *FuncVerifier) summarizeLoop(li *loopInfo) {
 	fv.sumKeep = false
 	for b := range li.body {
 		for _, ins := range b.Instrs {
+			was := li.havocAll
 			fv.summarizeInstr(ins, li.cells, li.prefixes, &li.havocAll, &li.allocs)
+			if !was && li.havocAll && os.Getenv("GOVC_DEBUG_HAVOC") != "" {
+				fmt.Fprintf(os.Stderr, "loop summary of %s: whole heap havoc because of %v\n", fv.fn, ins)
+			}
 		}
 	}
 	li.havocKeep = fv.sumKeep
@@ -297,6 +303,13 @@ func (fv *FuncVerifier) summarizeInstr(ins ssa.Instruction, cells map[ssa.Value]
 				callee = closureFn
 			}
 		}
+		if callee == nil && !cc.IsInvoke() {
+			if p := paramOfValue(cc.Value); p != nil {
+				if f := fv.sumParamFn[p]; f != nil {
+					callee = f
+				}
+			}
+		}
 		if callee == nil {
 			if cc.IsInvoke() {
 				if ic := fv.db.Funcs[ifaceMethodName(cc)]; ic != nil && ic.HasModifies {
@@ -341,11 +354,26 @@ func (fv *FuncVerifier) summarizeInstr(ins ssa.Instruction, cells map[ssa.Value]
 			return
 		}
 		if c.Inline {
+			// function-typed parameters bound to static functions at this call site: calls through
+			// them inside the inlined body are calls of those functions
+			saved := fv.sumParamFn
+			fv.sumParamFn = map[*ssa.Parameter]*ssa.Function{}
+			for k, v := range saved {
+				fv.sumParamFn[k] = v
+			}
+			for i, p := range callee.Params {
+				if i < len(cc.Args) {
+					if f, ok := cc.Args[i].(*ssa.Function); ok {
+						fv.sumParamFn[p] = f
+					}
+				}
+			}
 			for _, b := range callee.Blocks {
 				for _, i2 := range b.Instrs {
 					fv.summarizeInstr(i2, cells, prefixes, havocAll, allocs)
 				}
 			}
+			fv.sumParamFn = saved
 			return
 		}
 		if !c.HasModifies {
@@ -489,4 +517,31 @@ func (st *State) get(v ssa.Value) Value {
 		panic(fmt.Sprintf("no value for %s = %v", v.Name(), v))
 	}
 	return r
+}
+
+// paramOfValue: v is a parameter, or (naive SSA form) a load of the local cell that holds a
+// parameter and is never assigned anything else.
+func paramOfValue(v ssa.Value) *ssa.Parameter {
+	if p, ok := v.(*ssa.Parameter); ok {
+		return p
+	}
+	u, ok := v.(*ssa.UnOp)
+	if !ok {
+		return nil
+	}
+	a, ok := u.X.(*ssa.Alloc)
+	if !ok || a.Referrers() == nil {
+		return nil
+	}
+	var p *ssa.Parameter
+	for _, r := range *a.Referrers() {
+		if st, ok := r.(*ssa.Store); ok && st.Addr == ssa.Value(a) {
+			q, isParam := st.Val.(*ssa.Parameter)
+			if !isParam || (p != nil && p != q) {
+				return nil
+			}
+			p = q
+		}
+	}
+	return p
 }
